@@ -81,7 +81,7 @@ def run_case(case, ctx):
     mk_a = kinds[int(rng.integers(0, len(kinds)))] if rng.random() < 0.6 else "none"
     mk_b = kinds[int(rng.integers(0, len(kinds)))] if rng.random() < 0.6 else "none"
     ma, mb = gen.mask(rng, rows, cols, mk_a), gen.mask(rng, rows, cols, mk_b)
-    use_grid = rng.random() < 0.3
+    use_grid = rng.random() < 0.3 and case["i"] != 0
     if use_grid:
         lo, hi = -int(rng.integers(1, 4)), int(rng.integers(0, 4))
         dA = gen.grids(rng, rows, cols, lo, hi, "random")
@@ -91,7 +91,7 @@ def run_case(case, ctx):
         dA, dB = (a, b), None
     desc = {"pipeline": keys, "params": {k: params[k] for k in keys}, "shape": [rows, cols], "bands": nb, "masks": [mk_a, mk_b],
             "grid": use_grid, "disp": [int(np.min(dA[0])), int(np.max(dA[1]))]}
-    multiscale = (not use_grid) and rng.random() < 0.3
+    multiscale = (not use_grid) and (rng.random() < 0.3 or case["i"] == 0)
     if multiscale:
         ms_key = pipes.keys_for([pipes.kind_of(k) for k in keys] + ["multiscale"])[-1]
         keys = keys + [ms_key]
